@@ -68,8 +68,11 @@ EXTENDS BV
 LOCAL M == INSTANCE IR
 LOCAL Poison == M!Poison
 LOCAL IsPoison(v) == M!IsPoison(v)
-LOCAL Upd(f, x, v) == M!Upd(f, x, v)
-LOCAL Del(f, x) == M!Del(f, x)
+\* TLC evaluates function constructors lazily and re-evaluates them on every application; every value
+\* that the machine stores is forced into an explicit sequence / function (Norm is the identity).
+LOCAL Norm(v) == M!Norm(v)
+LOCAL Upd(f, x, v) == Norm(M!Upd(f, x, v))
+LOCAL Del(f, x) == Norm(M!Del(f, x))
 LOCAL EmptyFcn == M!EmptyFcn
 LOCAL NoRegs == M!NoRegs
 LOCAL NoMem == M!NoMem
@@ -110,7 +113,7 @@ WriteReg(table, view, val, regs) ==
      ELSE IF view.lsb = 0 /\ view.size = bs THEN Upd(regs, view.base, val)
      ELSE IF IsPoison(old) \/ Len(old) # bs THEN Del(regs, view.base)
      ELSE Upd(regs, view.base,
-              [i \in 1..bs |-> IF i > view.lsb /\ i <= view.lsb + view.size THEN val[i - view.lsb] ELSE old[i]])
+              Norm([i \in 1..bs |-> IF i > view.lsb /\ i <= view.lsb + view.size THEN val[i - view.lsb] ELSE old[i]]))
 
 (***************************************************************************)
 (* Varnodes.  Reading a ram varnode is a memory read (an observation), so  *)
@@ -162,6 +165,15 @@ EvalUn(m, a, os) ==
     [] m = "LZCOUNT" -> BvLzCount(a, os)
     [] OTHER -> Poison                                               \* floating point
 
+\* Division: BV!BvUDivRem nests 8w lazily evaluated function values, which TLC re-evaluates on every
+\* application; M!FUDivRem is the same restoring long division with every intermediate remainder forced
+\* (mc/MC_IR checks it against BV.tla / BVInt.tla).  The signed operations are those of BV.tla: the
+\* quotient truncates towards zero, the remainder has the sign of the dividend.
+LOCAL UDiv(a, b) == M!FUDivRem(a, b).q
+LOCAL URem(a, b) == M!FUDivRem(a, b).r
+LOCAL SDiv(a, b) == LET q == UDiv(Norm(BvAbs(a)), Norm(BvAbs(b))) IN IF BvSign(a) # BvSign(b) THEN BvNeg(q) ELSE q
+LOCAL SRem(a, b) == LET r == URem(Norm(BvAbs(a)), Norm(BvAbs(b))) IN IF BvSign(a) = 1 THEN BvNeg(r) ELSE r
+
 EvalBin(m, a, b, os) ==
   CASE m = "PIECE" -> b \o a                                         \* in0 = most significant part
     [] m = "SUBPIECE" -> LET off == BvSmall(b)                       \* in1 = number of low bytes to drop
@@ -191,10 +203,10 @@ EvalBin(m, a, b, os) ==
                 [] m = "INT_AND" -> BvAnd(a, b)
                 [] m = "INT_OR" -> BvOr(a, b)
                 [] m = "INT_MULT" -> BvMul(a, b)
-                [] m = "INT_DIV" -> IF BvIsZero(b) THEN BvOnes(Len(a)) ELSE BvUDiv(a, b)
-                [] m = "INT_SDIV" -> IF BvIsZero(b) THEN BvOnes(Len(a)) ELSE BvSDiv(a, b)
-                [] m = "INT_REM" -> IF BvIsZero(b) THEN a ELSE BvURem(a, b)
-                [] m = "INT_SREM" -> IF BvIsZero(b) THEN a ELSE BvSRem(a, b))
+                [] m = "INT_DIV" -> IF BvIsZero(b) THEN BvOnes(Len(a)) ELSE UDiv(a, b)
+                [] m = "INT_SDIV" -> IF BvIsZero(b) THEN BvOnes(Len(a)) ELSE SDiv(a, b)
+                [] m = "INT_REM" -> IF BvIsZero(b) THEN a ELSE URem(a, b)
+                [] m = "INT_SREM" -> IF BvIsZero(b) THEN a ELSE SRem(a, b))
     [] OTHER -> Poison                                               \* floating point
 
 (***************************************************************************)
@@ -213,12 +225,12 @@ StepOp(op, st, env) ==
          IN IF IsPoison(r1.v) \/ IsPoison(r2.v) THEN s1 ELSE [s1 EXCEPT !.mem = StoreBytes(@, r1.v, r2.v, env)]
     [] op.m \in UnaryMnemonics ->
          LET r == ReadVarnode(op.in0, st, env)
-             v == IF IsPoison(r.v) THEN Poison ELSE EvalUn(op.m, r.v, op.out.s)
+             v == IF IsPoison(r.v) THEN Poison ELSE Norm(EvalUn(op.m, r.v, op.out.s))
          IN WriteVarnode(op.out, v, r.st, env)
     [] OTHER ->
          LET r0 == ReadVarnode(op.in0, st, env)
              r1 == ReadVarnode(op.in1, r0.st, env)
-             v == IF IsPoison(r0.v) \/ IsPoison(r1.v) THEN Poison ELSE EvalBin(op.m, r0.v, r1.v, op.out.s)
+             v == IF IsPoison(r0.v) \/ IsPoison(r1.v) THEN Poison ELSE Norm(EvalBin(op.m, r0.v, r1.v, op.out.s))
          IN WriteVarnode(op.out, v, r1.st, env)
 
 RunDefs(defs, st, env) ==
